@@ -50,6 +50,8 @@ type c18Scenario struct {
 	Unit   c18Unit `json:"unit"`
 	Cfg    biCfg   `json:"cfg"`
 	Filter bool    `json:"filter"`
+	Preempt bool     `json:"preempt,omitempty"` // wake-up statements of syncer/bisync.go are preemption points
+	Plan    []string `json:"plan,omitempty"`    // "<file:line>#<occurrence>" points at which the running goroutine is held back
 }
 
 var c18KeyPool = []string{"{t}x", "y{t}", "{t}{u}", "{}{t}", "{{t}}", "}{t}", "plain", "{u}z", "{t", "t}{"}
@@ -94,8 +96,17 @@ func c18Commands(u c18Unit) (cmds [][]string, keys [][]string, txn bool) {
 }
 
 func c18Exec(t *testing.T, scn c18Scenario) mc.Result {
-	var res mc.Result
+	r, _, _ := c18ExecPlan(t, scn)
+	return r
+}
+
+// c18ExecPlan: the wake-up statements of syncer/bisync.go are preemption points from the moment
+// the stream is handed over until Send has settled; scn.Plan names the points that preempt.
+func c18ExecPlan(t *testing.T, scn c18Scenario) (res mc.Result, seen, hit []string) {
 	msg := bubble(t, func() {
+		pre := installPreempt(scn.Plan)
+		defer pre.remove()
+		defer func() { seen, hit = pre.seen, pre.hit }()
 		biEnvReset()
 		cl := clusterd.New(clusterAddrs, clusterd.EvenLayout(len(clusterAddrs)))
 		rc := clusterCfg()
@@ -136,8 +147,10 @@ func c18Exec(t *testing.T, scn c18Scenario) mc.Result {
 		rd := newHReader(g, aofRunID, aofS0, -1, true)
 		go func() { done <- ro.Send(ctx, rd) }()
 		synctest.Wait()
+		pre.armed = true
 		g.Release(raw)
-		synctest.Wait()
+		pre.settle()
+		pre.armed = false
 		var sendErr error
 		ended := false
 		select {
@@ -178,7 +191,7 @@ func c18Exec(t *testing.T, scn c18Scenario) mc.Result {
 				}
 				lines = append(lines, fmt.Sprintf("n%d %s -> %s", r.Node, maskVolatile(r.String()), r.Reply))
 			}
-			return map[string]interface{}{"log": lines, "send_error": fmt.Sprint(sendErr), "ended": ended, "unit_keys": all, "ref_single_slot": single}
+			return map[string]interface{}{"log": lines, "send_error": fmt.Sprint(sendErr), "ended": ended, "unit_keys": all, "ref_single_slot": single, "preempted_after": pre.hit}
 		}
 		shape := fmt.Sprintf("%s:%s", scn.Unit.Kind, scn.Cfg.Mode)
 		// ---- every MULTI..EXEC block: single slot by the reference, on the owner, executed
@@ -300,9 +313,9 @@ func c18Exec(t *testing.T, scn c18Scenario) mc.Result {
 		res = mc.OK(mc.Hash(lines...), true, 3)
 	})
 	if msg != "" {
-		return mc.Result{Verdict: "machinery", Clause: "bubble: " + msg}
+		return mc.Result{Verdict: "machinery", Clause: "bubble: " + msg}, seen, hit
 	}
-	return res
+	return res, seen, hit
 }
 
 func runC18(t *testing.T, rep *mc.Reporter) {
@@ -354,6 +367,39 @@ func runC18(t *testing.T, rep *mc.Reporter) {
 				}
 			}
 			rep.Exec(scn, nil, res)
+		}
+	}
+	// ---- preemption family: every wake-up statement of syncer/bisync.go (close, send, go, Unlock,
+	// Done, Close) is a point at which the running goroutine may step aside for the one it woke;
+	// all placements of up to `pbound` preemptions, for refused and accepted units in every mode
+	pbound := 1
+	pkinds := []string{"mset", "txn"}
+	ppool := []string{"{t}x", "{u}z"}
+	if tier == "thorough" {
+		pbound = 2
+		pkinds = []string{"set", "mset", "eval", "txn", "txnflt"}
+	}
+	for _, kind := range pkinds {
+		for _, a := range ppool {
+			for _, b := range ppool {
+				for _, m := range modes {
+					idx++
+					if idx%nshards != shard || budget.Expired() {
+						continue
+					}
+					scn := c18Scenario{Unit: c18Unit{kind, []string{a, b}}, Cfg: m, Filter: kind == "txnflt", Preempt: true}
+					rep.Scenario()
+					explorePreempt(rep, budget, pbound, func(plan []string, res mc.Result) {
+						s := scn
+						s.Plan = plan
+						rep.Exec(s, nil, res)
+					}, func(plan []string) (mc.Result, []string, []string) {
+						s := scn
+						s.Plan = plan
+						return c18ExecPlan(t, s)
+					})
+				}
+			}
 		}
 	}
 	if budget.Expired() {
